@@ -5,7 +5,7 @@
    overlap flag is raised exactly when a used bit is claimed again (C02_overlap_flag).
    The composite statement (layout of whole parameter trees) is correspondence-only. *)
 From Coq Require Import ZArith List Bool.
-From OV Require Import Base.Bytes Base.Wire Generated Model.Str Model.Codec Proofs.BytesProofs Proofs.AtomicProofs Proofs.CodecProps Proofs.FlatProofs Proofs.TreeProofs Proofs.TreeWireProofs Proofs.FieldProofs.
+From OV Require Import Base.Bytes Base.Wire Generated Model.Str Model.Codec Proofs.BytesProofs Proofs.AtomicProofs Proofs.CodecProps Proofs.FlatProofs Proofs.TreeProofs Proofs.TreeWireProofs Proofs.FieldProofs Proofs.DynFieldProofs Proofs.EopFieldProofs Proofs.PadProofs Proofs.BStructProofs Proofs.BitFieldProofs.
 Import ListNotations.
 Open Scope Z_scope.
 
@@ -119,3 +119,32 @@ Print Assumptions C02_message_of_members_wire_format.
 Theorem C02_field_bytes : forall nm ps isz items, r_w (field_rm nm ps isz items) = concat (map rbytes items).
 Proof. reflexivity. Qed.
 Print Assumptions C02_field_bytes.
+
+(* ---------- messages which end in an END-OF-PDU-FIELD (Proofs/EopFieldProofs.v) ---------- *)
+(* the PDU is the member bytes followed by the bytes of the items, in order, nothing between or behind them *)
+Theorem C02_end_of_pdu_field_wire_format : forall k rs nm psi (items : list (list rmem)),
+  (forall x, In x rs -> rgood k x) ->
+  (forall it, In it items -> eitem_ok k psi it) ->
+  let ms := rms rs ++ [eop_member nm psi items] in
+  NoDup (map m_name ms) ->
+  (k + 5 <= fuel_of (map m_p ms))%nat ->
+  encode_msg (map m_p ms) None (VDict (in_dict ms)) = Ok (concat (map r_w rs) ++ concat (map rbytes items), false).
+Proof. intros k rs nm psi items Hg Hit ms ND Hf. exact (proj1 (eop_message_roundtrip k rs nm psi items Hg Hit ND Hf)). Qed.
+Print Assumptions C02_end_of_pdu_field_wire_format.
+
+(* ---------- structures with a BYTE-SIZE (Proofs/BStructProofs.v) ---------- *)
+(* such a structure contributes its members' bytes followed by zero bytes, the declared number of bytes in all *)
+Theorem C02_byte_size_structure_bytes : forall nm rs b,
+  r_w (bstruct_rm nm rs b) = rbytes rs ++ zeros (b - blen (rbytes rs)) /\
+  (blen (rbytes rs) <= b -> blen (r_w (bstruct_rm nm rs b)) = b).
+Proof. intros nm rs b. split; [reflexivity | apply bstruct_length]. Qed.
+Print Assumptions C02_byte_size_structure_bytes.
+
+(* ---------- bit fields (Proofs/BitFieldProofs.v) ---------- *)
+(* the byte of a structure of bit fields is the OR -- with disjoint ranges: the sum -- of the values shifted to
+   their bit positions, whatever the order in which the parameters are listed *)
+Theorem C02_bit_field_byte : forall vv nm fs,
+  r_w (packed_rm vv nm fs) = [fold_left (fun acc x => Z.lor acc (vv (b_name x) * 2 ^ b_pos x)) fs 0] /\
+  (packed_ok vv fs -> pack vv fs = fold_left (fun acc x => acc + vv (b_name x) * 2 ^ b_pos x) fs 0).
+Proof. intros vv nm fs. split; [reflexivity | apply pack_is_sum]. Qed.
+Print Assumptions C02_bit_field_byte.
